@@ -18,6 +18,7 @@ import (
 	"log/slog"
 	"os"
 	"path/filepath"
+	"sort"
 	"strings"
 
 	"github.com/hydraide/hydraide/app/core/hydra/swamp/beacon"
@@ -52,7 +53,7 @@ type fileSpec struct {
 	nBlocks uint64
 }
 
-func randName(rng *common.Rng, pool []string) string {
+func randName(rng *common.Rng, pool, swampPool []string) string {
 	part := func() string {
 		// most names of one directory share sanctuaries and realms, as real data does
 		if len(pool) > 0 && rng.Chance(70) {
@@ -93,7 +94,29 @@ func randName(rng *common.Rng, pool []string) string {
 	case r < 19:
 		return part() + "//" + freshPart(rng)
 	}
+	if len(swampPool) > 0 && rng.Chance(60) {
+		return part() + "/" + part() + "/" + swampPool[rng.Intn(len(swampPool))]
+	}
 	return part() + "/" + part() + "/" + freshPart(rng)
+}
+
+// relatedPool returns names of which one is a prefix of the others, continued by bytes that sort
+// below, at and above '/', by case variants and by multi-byte characters: orders by component and
+// by the joined "sanctuary/realm/swamp" string differ on such names (shop, shop-eu, shop.de ...)
+func relatedPool(rng *common.Rng) []string {
+	base := freshPart(rng)
+	if len(base) > 8 {
+		base = base[:1+rng.Intn(6)]
+	}
+	sufs := []string{"-eu", ".de", " x", "+", "!", "0", "a", "_", "~", "\x01", "é", "-", ".", "A", "z9"}
+	pool := []string{base}
+	for len(pool) < 3+rng.Intn(3) {
+		pool = append(pool, base+sufs[rng.Intn(len(sufs))])
+	}
+	if rng.Chance(30) {
+		pool = append(pool, strings.ToUpper(base))
+	}
+	return pool
 }
 
 func freshPart(rng *common.Rng) string {
@@ -485,7 +508,7 @@ func main() {
 	slog.SetDefault(slog.New(slog.NewTextHandler(io.Discard, nil)))
 	a := common.ParseArgs()
 	run := common.NewRun(a, "C29", "HV.Storage.C29Check")
-	run.Meta.Rule = "a directory case is a data directory of 1..8 real .hyd files (fresh, appended, compacted through each entry point, chronicler-written, legacy V2 layout plain/appended/compacted, still open in a writer; fragmented files taken through one to three chronicler objects built with or without a name that Load/self-heal, write, compact inline, ForceCompaction and close; CompactIfNeeded; CompactDirectory) under random UTF-8 names (three-part, and two-/one-part/empty ones that the explorer must skip), scanned by the real explorer; a file case is one of those files with ReadSwampName / GetSwampName / LoadIndex observations and its header bytes; non-trivial file case = the file went through at least one append session, compaction or format upgrade, or is a legacy file; names of 301..65535 bytes with non-periodic content cluster around the 4096-byte page and the 16-bit field; junk (.hyd directories, empty/garbage/short .hyd files, swamp files under another extension) is mixed in; the SAME explorer then rescans after the directory changed (all or some swamps removed, swamps added, a file replaced or moved, nothing changed) and every scan is a directory case, with the other index views (pages, sanctuaries, realms, details, sizes) cross-checked; non-trivial directory = at least 3 listed swamps and one skipped file, or a rescan"
+	run.Meta.Rule = "a directory case is a data directory of 1..8 real .hyd files (fresh, appended, compacted through each entry point, chronicler-written, legacy V2 layout plain/appended/compacted, still open in a writer; fragmented files taken through one to three chronicler objects built with or without a name that Load/self-heal, write, compact inline, ForceCompaction and close; CompactIfNeeded; CompactDirectory) under random UTF-8 names (three-part, and two-/one-part/empty ones that the explorer must skip), scanned by the real explorer; a file case is one of those files with ReadSwampName / GetSwampName / LoadIndex observations and its header bytes; non-trivial file case = the file went through at least one append session, compaction or format upgrade, or is a legacy file; names of 301..65535 bytes with non-periodic content cluster around the 4096-byte page and the 16-bit field; junk (.hyd directories, empty/garbage/short .hyd files, swamp files under another extension) is mixed in; the SAME explorer then rescans after the directory changed (all or some swamps removed, swamps added, a file replaced or moved, nothing changed) and every scan is a directory case, about half of the directories use sanctuary/realm/swamp names that are prefixes of each other continued by bytes below, at and above '/', and a quarter hold 6..14 extra swamps; the other index views (pages of 1,2,3,5,7, sanctuary / realm / swamp-prefix filters walked page by page, sanctuaries, realms, details, sizes) are cross-checked against the full listing; non-trivial directory = at least 3 listed swamps and one skipped file, or a rescan"
 	rng := common.NewRng(a.Seed, "C29")
 	ndirs := 150
 	if a.Tier == "thorough" {
@@ -525,15 +548,26 @@ func main() {
 		jobs[i] = d
 		root := filepath.Join(tmp, fmt.Sprintf("d%d", i))
 		pool := []string{freshPart(r), freshPart(r), freshPart(r)}
+		if r.Chance(50) {
+			pool = relatedPool(r)
+		}
+		var swampPool []string
+		if r.Chance(40) {
+			swampPool = relatedPool(r)
+		}
 		used := map[string]bool{}
 		var present []*fileSpec
 		serial := 0
+		cheap := false // extra files that only widen the listing
 		addFile := func(nm string, rel string) {
 			if used[nm] {
 				return
 			}
 			used[nm] = true
 			f := &fileSpec{Mode: modes[r.Intn(len(modes))], Name: nm, NameLen: len(nm)}
+			if cheap {
+				f.Mode = "fresh"
+			}
 			if len(nm) <= 300 {
 				f.NameStr = nm
 			}
@@ -598,7 +632,7 @@ func main() {
 		}
 		nf := 1 + r.Intn(8)
 		for k := 0; k < nf; k++ {
-			nm := randName(r, pool)
+			nm := randName(r, pool, swampPool)
 			if i%40 == 7 && k == 0 {
 				nm = "s/r/" + strings.Repeat("n", 65535-4)
 			}
@@ -606,6 +640,14 @@ func main() {
 				nm = "s/r/" + strings.Repeat("n", 65536-4)
 			}
 			addFile(nm, "")
+		}
+		if r.Chance(25) {
+			// a listing deep enough for several pages per sanctuary
+			cheap = true
+			for k := 0; k < 6+r.Intn(9); k++ {
+				addFile(randName(r, pool, swampPool), "")
+			}
+			cheap = false
 		}
 		if r.Chance(40) {
 			junk()
@@ -637,15 +679,91 @@ func main() {
 			if res.Total != int64(len(res.Swamps)) {
 				bad("ListSwamps Total %d but %d swamps returned", res.Total, len(res.Swamps))
 			}
-			var paged []string
-			for off := int64(0); off < int64(len(rd.listing))+2; off += 2 {
-				pg := ex.ListSwamps(&explorer.SwampFilter{Offset: off, Limit: 2})
-				for _, sd := range pg.Swamps {
-					paged = append(paged, sd.Sanctuary+"/"+sd.Realm+"/"+sd.Swamp)
+			// every paged and every filtered view must show exactly the matching part of the full
+			// listing, each swamp once, whatever the page size
+			fullName := func(sd *explorer.SwampDetail) string { return sd.Sanctuary + "/" + sd.Realm + "/" + sd.Swamp }
+			walk := func(f explorer.SwampFilter, size int64) (names []string, total int64) {
+				total = -1
+				for off := int64(0); ; off += size {
+					f.Offset, f.Limit = off, size
+					pg := ex.ListSwamps(&f)
+					if total == -1 {
+						total = pg.Total
+					} else if pg.Total != total {
+						bad("Total changes between pages (%d, %d)", total, pg.Total)
+					}
+					for _, sd := range pg.Swamps {
+						names = append(names, fullName(sd))
+					}
+					if len(pg.Swamps) == 0 || off > int64(len(rd.listing))+size {
+						return
+					}
 				}
 			}
-			if strings.Join(paged, "\x00") != strings.Join(rd.listing, "\x00") {
-				bad("pages of 2 give %d swamps, the full listing %d (or another order)", len(paged), len(rd.listing))
+			same := func(what string, got []string, want []string, total int64) {
+				g := append([]string{}, got...)
+				w := append([]string{}, want...)
+				sort.Strings(g)
+				sort.Strings(w)
+				if strings.Join(g, "\x00") != strings.Join(w, "\x00") {
+					bad("%s: %d swamps over the pages, %d expected (some missing or shown twice)", what, len(g), len(w))
+				} else if total != int64(len(w)) {
+					bad("%s: Total %d, %d swamps", what, total, len(w))
+				}
+			}
+			for _, size := range []int64{1, 2, 3, 5, 7} {
+				got, total := walk(explorer.SwampFilter{}, size)
+				same(fmt.Sprintf("pages of %d", size), got, rd.listing, total)
+			}
+			if pg := ex.ListSwamps(&explorer.SwampFilter{Offset: int64(len(rd.listing)) + 3, Limit: 4}); len(pg.Swamps) != 0 {
+				bad("a page behind the end is not empty")
+			}
+			// Limit 0 means the default page size: still a prefix-free part of the listing, each swamp once
+			if pg := ex.ListSwamps(&explorer.SwampFilter{}); pg.Total != int64(len(rd.listing)) || int64(len(pg.Swamps)) > pg.Total {
+				bad("default page: Total %d, %d swamps, listing %d", pg.Total, len(pg.Swamps), len(rd.listing))
+			}
+			bySan, byRealm := map[string][]string{}, map[[2]string][]string{}
+			for _, sd := range res.Swamps {
+				bySan[sd.Sanctuary] = append(bySan[sd.Sanctuary], fullName(sd))
+				byRealm[[2]string{sd.Sanctuary, sd.Realm}] = append(byRealm[[2]string{sd.Sanctuary, sd.Realm}], fullName(sd))
+			}
+			for san, want := range bySan {
+				if san == "" {
+					continue // an empty filter field means "all"
+				}
+				got, total := walk(explorer.SwampFilter{Sanctuary: san}, 2)
+				same("sanctuary filter, pages of 2", got, want, total)
+			}
+			for sr, want := range byRealm {
+				if sr[0] == "" || sr[1] == "" {
+					continue
+				}
+				got, total := walk(explorer.SwampFilter{Sanctuary: sr[0], Realm: sr[1]}, 3)
+				same("sanctuary+realm filter, pages of 3", got, want, total)
+			}
+			if len(res.Swamps) > 0 {
+				sd := res.Swamps[len(res.Swamps)/2]
+				if len(sd.Swamp) > 0 {
+					prefix := sd.Swamp[:1+len(sd.Swamp)/3]
+					var want []string
+					for _, x := range res.Swamps {
+						if strings.HasPrefix(x.Swamp, prefix) {
+							want = append(want, fullName(x))
+						}
+					}
+					got, total := walk(explorer.SwampFilter{SwampPrefix: prefix}, 2)
+					same("swamp-prefix filter, pages of 2", got, want, total)
+					if sd.Sanctuary != "" {
+						want = nil
+						for _, x := range res.Swamps {
+							if x.Sanctuary == sd.Sanctuary && strings.HasPrefix(x.Swamp, prefix) {
+								want = append(want, fullName(x))
+							}
+						}
+						got, total = walk(explorer.SwampFilter{Sanctuary: sd.Sanctuary, SwampPrefix: prefix}, 1)
+						same("sanctuary + swamp-prefix filter, pages of 1", got, want, total)
+					}
+				}
 			}
 			var viaTree int64
 			nsan := 0
@@ -710,7 +828,7 @@ func main() {
 				case q < 65 && len(present) > 0:
 					what = "a file replaced by another swamp at the same path"
 					rel := removeFile(r.Intn(len(present)))
-					addFile(randName(r, pool), rel)
+					addFile(randName(r, pool, swampPool), rel)
 				case q < 75 && len(present) > 0:
 					what = "a file moved to another island"
 					f := present[r.Intn(len(present))]
@@ -726,12 +844,12 @@ func main() {
 				default:
 					what = "swamps added"
 					for k := 0; k < 1+r.Intn(3); k++ {
-						addFile(randName(r, pool), "")
+						addFile(randName(r, pool, swampPool), "")
 					}
 				}
 				if what == "" {
 					what = "swamps added"
-					addFile(randName(r, pool), "")
+					addFile(randName(r, pool, swampPool), "")
 				}
 				if r.Chance(25) {
 					junk()
